@@ -8,14 +8,14 @@ PROP = "C15"
 META = {
     "level": "exploration",
     "engine": "threaded",
-    "claim": "Held on the executed runs: with the engine started as in production (sync thread, one event thread per side, notification thread), two user threads applying a generated one-sided or disjoint two-sided history and application threads calling the public surface (busy, change_count, aging, and for SmartCloudSync request / un-request by path and id and the merged listing), under a 1 microsecond switch interval and LINE-level yield injection in cloudsync code, every observed mutation of the sync state (updated, _change_path, _change_oid, mark_changed, finished, split, storage_commit, update, update_entry, forget*, and the smart request/exclude bookkeeping) was made by a thread that owned the state lock at that instant - a deterministic observation made inside the mutating call - and after stop() a fresh engine over the same providers and storage quiesces to the exact expected trees with a consistent index.",
+    "claim": "Held on the executed runs: with the engine started as in production (sync thread, one event thread per side, notification thread), two user threads applying a generated one-sided or disjoint two-sided history and application threads calling the public surface (busy, change_count, aging, and for SmartCloudSync request / un-request by path and id and the merged listing), under a 1 microsecond switch interval and LINE-level yield injection in cloudsync code, every observed mutation of the sync state (updated, _change_path, _change_oid, mark_changed, finished, split, storage_commit, update, update_entry, forget*, and the smart request/exclude bookkeeping) was made by a thread that owned the state lock at that instant - a deterministic observation made inside the mutating call - and after stop() a fresh engine over the same providers and storage quiesces to the exact expected trees with a consistent index. A quarter of the runs add an application thread that polls 'busy' in a tight loop. (handoff rounds) with one producer thread applying 150 creates/writes to a MockProvider and the engine's two kinds of event consumers on threads of their own - a loop draining provider.events() and a busy-style consumer that takes one event and abandons the generator - under statement-boundary yields, every event index the provider assigned was delivered to at least one consumer and nobody raised.",
     "note": "Trusted: lock ownership is read with RLock._is_owned() inside wrappers installed on the SyncState / SmartSyncState class attributes. Reach is the interleavings the OS produced in these runs plus the ownership check, which does not depend on the interleaving. Exceptions out of read-only public calls (e.g. a listing iterating a dict that another thread resizes) are counted in the evidence but are not read-modify-writes and not a verdict. Unfiltered mock flavours only (the mock's own listdir/events generators are not thread safe).",
     "technique": "runtime monitoring under real threads: lock-ownership assertion inside every state mutation, yield injection via sys.monitoring, convergence + index oracle after a deterministic post-run quiescence",
-    "plan": {"quick": {"shards": 16, "timeout": 900, "runs": 48},
-             "thorough": {"shards": 32, "timeout": 3400, "runs": 1600}},
+    "plan": {"quick": {"shards": 16, "timeout": 900, "runs": 48, "handoff": 64},
+             "thorough": {"shards": 32, "timeout": 3400, "runs": 1600, "handoff": 1600}},
     "rule": "run = one threaded execution (about 1.3-2 s) of a generated ONE/DISJ history (8-20 ops, no folder renames) on a "
             "flavour of {oo, po, pp, op}; every third run uses SmartCloudSync with a request/un-request thread; distinct = "
-            "distinct (case signature, smart flag); non-trivial = state mutations were observed from the sync thread and from an event thread",
+            "distinct (case signature, smart flag); non-trivial = state mutations were observed from the sync thread and from an event thread; plus handoff rounds (no-loss check of provider events between producer and the two consumers)",
     "assumptions": ["CPython 3.12 sys.monitoring available (else runs proceed without yield injection and say so)"],
 }
 
@@ -31,7 +31,12 @@ def shard(ctx, acc):
                            shapes=("burst",), nops=(8, 20), weights=WEIGHTS)
         if smart:
             case["flavour"] = ("oo", "po")[i % 2]
-        r = T.run_threaded(case, "%s:%d" % (ctx.seed, i), smart=smart, duration=1.0 if ctx.tier == "quick" else 1.5)
+        poll = i % 4 == 1
+        r = T.run_threaded(case, "%s:%d" % (ctx.seed, i), smart=smart, duration=1.0 if ctx.tier == "quick" else 1.5,
+                           poll_busy=poll)
+        if poll:
+            acc.count("runs_with_busy_poller")
+            acc.count("busy_polls", r["stats"].get("busy_polls", 0))
         st = r["stats"]
         acc.evaluations += 1
         acc.count("runs_smart" if smart else "runs_plain")
@@ -56,6 +61,22 @@ def shard(ctx, acc):
         if r["problems"]:
             acc.violation(r["problems"][0][0], r["problems"][:3] + [("log", st.get("log_about_first_bad_path"), st.get("rejected_ops"))],
                           dict(case, smart=smart))
+    _handoff(ctx, acc)
+
+
+def _handoff(ctx, acc):
+    from vlib import threaded as T
+    plan = META["plan"][ctx.tier]
+    for j in range(ctx.shard, plan.get("handoff", 0), ctx.nshards):
+        probs, st = T.events_handoff_round("%s:handoff:%d" % (ctx.seed, j))
+        acc.evaluations += 1
+        acc.count("handoff_rounds")
+        acc.count("handoff_events", st["events"])
+        acc.count("handoff_events_taken_by_busy_consumer", st["to_busy"])
+        acc.count("handoff_events_seen_by_both", st["both"])
+        acc.sigs.add("handoff:%d" % j)
+        if probs:
+            acc.violation(probs[0][0], probs[:3], {"family": "HANDOFF", "j": j})
 
 
 def conclusive(acc, tier):
